@@ -19,8 +19,8 @@ from .. import guards as G
 from .. import wire
 from ..model import AnalysisError, CArray, CScalar, CStructRef, ClassRef, EnumMember, Unknown, dotted, src
 
-TECHNIQUE = "AST dispatch-table totality + writer/reader segment symmetry + ctypes field/method shadow rule (static analysis)"
-ENGINES = ["model", "wire"]
+TECHNIQUE = "AST dispatch-table totality + writer/reader segment symmetry + ctypes field/method shadow rule; abstract interpretation of small functions over an enumerated finite domain by the checker's own AST interpreter (static analysis)"
+ENGINES = ["model", "wire", "circuit"]
 EXPLANATION = (
     "Over backend/messages.py and lang/encoding.py: both dispatch tables are total over their type enums and map each type to a "
     "class whose TYPE is that type; the type byte is the first field (offset 0) written by every constructor and the byte the "
